@@ -404,8 +404,10 @@ class C10(Monitor):
         rq = random.Random(case["q_seed"])
         regs_t = [(["rect", r["x1"], r["y1"], r["x2"], r["y2"], r["id"]] if r["type"] == "RectangularRegion"
                    else ["circ", r["cx"], r["cy"], r["r"], r["id"]]) for r in regions_now]
-        q = [["event", EV_START]] + program(rq, regs_t, settings, rq.randint(5, 45), feats=case.get("q_feats")) \
-            + [["script", "gcode", "afterPrintDone"]]
+        body = program(rq, regs_t, settings, rq.randint(5, 45), feats=case.get("q_feats"))
+        if case["q_seed"] % 17 == 0:
+            body = body[:case["q_seed"] % 3]      # a job of (next to) no lines: the script hook is the first thing it asks for
+        q = [["event", EV_START]] + body + [["script", "gcode", "afterPrintDone"]]
         for i, st in enumerate(q):
             try:
                 r1 = d1.do(st)
